@@ -310,8 +310,8 @@ func C11(r *core.Report) {
 	}
 	c11FastDecoders(r, kindConst)
 	c11PresenceAccessors(r)
-	r.Floor("C11.R1", 40)
-	r.Floor("C11.R2", 15)
+	r.Floor("C11.R1", 30)
+	r.Floor("C11.R2", 8)
 	r.Floor("C11.R3", 8)
 }
 
